@@ -15,8 +15,10 @@ EXTENDS Naturals, Integers, Sequences, FiniteSets, TLC
 Absent == [absent |-> TRUE]
 IsAbsent(f) == "absent" \in DOMAIN f
 
-\* A missing reference epoch (tref = -1) on one side only is neither clearly compatible nor clearly a conflict (astropy's
-\* metadata merge treats None as "unspecified"): such an append may be accepted (rows take the file's epoch) or refused.
+\* A missing reference epoch (tref = -1) on one side only is a conflict like any other: rows written without a reference epoch may
+\* not come back with the file's (nor the other way round).  (First modelled as "may be accepted or refused" because astropy's
+\* metadata merge takes a None for "unspecified"; tightened after a table without epoch was seen to be accepted into a file with one
+\* while the opposite order was refused - repaired in /repo, DESIGN 9.8.)
 SameShape(a, b) == a.cols = b.cols /\ a.units = b.units /\ a.meta.poly = b.meta.poly /\ a.meta.noff = b.meta.noff
 Compatible(a, b) == SameShape(a, b) /\ a.meta.tref = b.meta.tref
 Ambiguous(a, b) == SameShape(a, b) /\ a.meta.tref # b.meta.tref /\ (a.meta.tref = -1 \/ b.meta.tref = -1)
@@ -28,7 +30,6 @@ WriteOutcomes(f, t, ow, ap) ==
   ELSE IF ~ow /\ ~ap THEN {[file |-> f, raised |-> TRUE]}                     \* exists: refuse, unchanged
   ELSE IF ow THEN {[file |-> t, raised |-> FALSE]}                            \* overwrite (with or without append): replaced
   ELSE IF Compatible(f, t) THEN {[file |-> Appended(f, t), raised |-> FALSE]}
-  ELSE IF Ambiguous(f, t) THEN {[file |-> Appended(f, t), raised |-> FALSE], [file |-> f, raised |-> TRUE]}
   ELSE {[file |-> f, raised |-> TRUE]}                                        \* incompatible append: refuse, unchanged
 \* the outcome when there is exactly one
 Write(f, t, ow, ap) == CHOOSE r \in WriteOutcomes(f, t, ow, ap) : TRUE
